@@ -264,6 +264,7 @@ func main() {
 	hb.WriteString(`// VfBlocked, when non-nil, is called when a try-lock loop could not take its lock (simulation only).
 var VfBlocked func()
 
+//go:norace
 func _vfBlocked() {
 	if f := VfBlocked; f != nil {
 		f()
@@ -275,12 +276,14 @@ func _vfBlocked() {
 // VfLockTaken / VfLockReleased, when non-nil, report cooperative lock acquisition and release (simulation only).
 var VfLockTaken, VfLockReleased func()
 
+//go:norace
 func _vfLockTaken() {
 	if f := VfLockTaken; f != nil {
 		f()
 	}
 }
 
+//go:norace
 func _vfLockReleased() {
 	if f := VfLockReleased; f != nil {
 		f()
@@ -290,12 +293,14 @@ func _vfLockReleased() {
 // VfOnceEnter / VfOnceExit, when non-nil, bracket every X.Do(f) statement (simulation only).
 var VfOnceEnter, VfOnceExit func()
 
+//go:norace
 func _vfOnceEnter() {
 	if f := VfOnceEnter; f != nil {
 		f()
 	}
 }
 
+//go:norace
 func _vfOnceExit() {
 	if f := VfOnceExit; f != nil {
 		f()
